@@ -1,11 +1,18 @@
 package main
 
 import (
+	"bufio"
 	"bytes"
 	"context"
+	"encoding/json"
 	"fmt"
 	"io"
+	"math"
 	"math/rand"
+	"os"
+	"os/exec"
+	"strings"
+	"time"
 
 	"github.com/jamf/regatta/regattapb"
 	"github.com/jamf/regatta/regattaserver"
@@ -355,6 +362,12 @@ func runC16(args []string) error {
 	}
 	// ---- malformed stream: random garbage in every field; only survival and "no effect on rejection" are checked ----
 	ng := rf.count(150, 3000)
+	// ---- extreme numeric fields on requests that MATCH existing pairs: run in a child process, because what such a
+	// request can do to a server is not only a panic (caught above) but a fatal runtime error ----
+	if err := c16ExtremeParent(sum); err != nil {
+		return err
+	}
+	hk.Inc("extreme-numeric (child process)")
 	for i := 0; i < ng; i++ {
 		gb := func() []byte {
 			switch r.Intn(4) {
@@ -425,6 +438,155 @@ func runC16(args []string) error {
 	}
 	sum.CasesFiles = names
 	return sum.write(rf.Out, "c16")
+}
+
+// ---- extreme numeric fields: huge limits, enum values outside the defined range (open proto3 enums) on requests that
+// MATCH existing pairs.  Any status is fine; a panic or a dead process is not. ----
+
+func init() { register("c16x", runC16Extreme) }
+
+// runC16Extreme is the child: it announces every request on stdout before issuing it ("REQ <json>"), reports caught
+// panics as "VIOL <json>" and ends with "DONE".
+func runC16Extreme(args []string) error {
+	h, err := newSimHost(rand.New(rand.NewSource(1)), 1)
+	if err != nil {
+		return err
+	}
+	defer h.close()
+	eng := &tableEngine{h: h, at: table.Table{Name: "t", ClusterID: 10001}.AsActive(h)}
+	srv := &regattaserver.KVServer{Storage: eng}
+	ctx := context.Background()
+	out := bufio.NewWriter(os.Stdout)
+	say := func(tag string, v any) {
+		b, _ := json.Marshal(v)
+		fmt.Fprintf(out, "%s %s\n", tag, b)
+		out.Flush()
+	}
+	guard := func(name string, in map[string]any, f func() error) {
+		cp := map[string]any{"call": name}
+		for k, v := range in {
+			cp[k] = v
+		}
+		say("REQ", cp)
+		defer func() {
+			if p := recover(); p != nil {
+				cp["panic"] = fmt.Sprint(p)
+				say("VIOL", cp)
+			}
+		}()
+		before := fullContent(eng)
+		if err := f(); codeOf(err) != 0 {
+			if after := fullContent(eng); after != before {
+				cp["changed"] = fmt.Sprintf("%s -> %s", before, after)
+				say("VIOL", cp)
+			}
+		}
+	}
+	for _, k := range []string{"xa", "xb", "xc"} {
+		_, _ = srv.Put(ctx, &regattapb.PutRequest{Table: []byte("t"), Key: []byte(k), Value: []byte("v")})
+	}
+	for _, lim := range []int64{math.MaxInt64, 1 << 45, 1 << 62, math.MaxInt32 + 1} {
+		for _, flags := range [][2]bool{{false, false}, {true, false}, {false, true}} {
+			in := map[string]any{"api": "Range with a huge limit on a non-empty range", "limit": lim, "keys_only": flags[0], "count_only": flags[1]}
+			req := &regattapb.RangeRequest{Table: []byte("t"), Key: []byte("x"), RangeEnd: []byte("y"), Limit: lim, KeysOnly: flags[0], CountOnly: flags[1]}
+			guard("x-range", in, func() error { _, err := srv.Range(ctx, req); return err })
+			guard("x-iterate", in, func() error { return srv.IterateRange(req, &rangeStream{}) })
+			rop := &regattapb.RequestOp{Request: &regattapb.RequestOp_RequestRange{RequestRange: &regattapb.RequestOp_Range{Key: []byte("x"), RangeEnd: []byte("y"), Limit: lim, KeysOnly: flags[0], CountOnly: flags[1]}}}
+			guard("x-txn-ro", in, func() error {
+				_, err := srv.Txn(ctx, &regattapb.TxnRequest{Table: []byte("t"), Success: []*regattapb.RequestOp{rop}})
+				return err
+			})
+			guard("x-txn-rw", in, func() error {
+				_, err := srv.Txn(ctx, &regattapb.TxnRequest{Table: []byte("t"), Success: []*regattapb.RequestOp{rop, {Request: &regattapb.RequestOp_RequestPut{RequestPut: &regattapb.RequestOp_Put{Key: []byte("xa"), Value: []byte("v")}}}}})
+				return err
+			})
+
+		}
+	}
+	for _, res := range []int32{4, 7, -1, 1000} {
+		for _, tgt := range []int32{0, 3, -2} {
+			for _, rng := range []bool{false, true} {
+				cmp := &regattapb.Compare{Result: regattapb.Compare_CompareResult(res), Target: regattapb.Compare_CompareTarget(tgt), Key: []byte("xa"), TargetUnion: &regattapb.Compare_Value{Value: []byte("v")}}
+				if rng {
+					cmp.RangeEnd = []byte("xz")
+				}
+				in := map[string]any{"api": "Txn with an undefined compare result / target on an existing key", "result": res, "target": tgt, "range": rng}
+				rop := &regattapb.RequestOp{Request: &regattapb.RequestOp_RequestRange{RequestRange: &regattapb.RequestOp_Range{Key: []byte("xa")}}}
+				guard("x-cmp-ro", in, func() error {
+					_, err := srv.Txn(ctx, &regattapb.TxnRequest{Table: []byte("t"), Compare: []*regattapb.Compare{cmp}, Success: []*regattapb.RequestOp{rop}, Failure: []*regattapb.RequestOp{rop}})
+					return err
+				})
+				guard("x-cmp-rw", in, func() error {
+					pop := &regattapb.RequestOp{Request: &regattapb.RequestOp_RequestPut{RequestPut: &regattapb.RequestOp_Put{Key: []byte("xa"), Value: []byte("v")}}}
+					_, err := srv.Txn(ctx, &regattapb.TxnRequest{Table: []byte("t"), Compare: []*regattapb.Compare{cmp}, Success: []*regattapb.RequestOp{pop}, Failure: []*regattapb.RequestOp{pop}})
+					return err
+				})
+
+			}
+		}
+	}
+
+	say("DONE", map[string]any{})
+	return nil
+}
+
+// c16ExtremeParent runs the child under an address-space limit and turns its death into a violation whose input is
+// the request it had announced last.
+func c16ExtremeParent(sum *Summary) error {
+	exe, err := os.Executable()
+	if err != nil {
+		return err
+	}
+	cmd := exec.Command("/bin/sh", "-c", "ulimit -v 33554432; exec \"$0\" c16x", exe)
+	var stderr bytes.Buffer
+	cmd.Stderr = &stderr
+	stdout, err := cmd.StdoutPipe()
+	if err != nil {
+		return err
+	}
+	if err := cmd.Start(); err != nil {
+		return err
+	}
+	timer := time.AfterFunc(120*time.Second, func() { _ = cmd.Process.Kill() })
+	defer timer.Stop()
+	var last map[string]any
+	done := false
+	sc := bufio.NewScanner(stdout)
+	sc.Buffer(make([]byte, 1<<20), 1<<20)
+	for sc.Scan() {
+		line := sc.Text()
+		tag, rest, _ := strings.Cut(line, " ")
+		var m map[string]any
+		_ = json.Unmarshal([]byte(rest), &m)
+		switch tag {
+		case "REQ":
+			last = m
+			sum.Evaluations++
+		case "VIOL":
+			what := "a request terminated its handler with a panic"
+			if _, ok := m["changed"]; ok {
+				what = "a rejected request changed the table"
+			}
+			sum.violate(700000+sum.Evaluations, what, m, fmt.Sprint(m["panic"], m["changed"]))
+		case "DONE":
+			done = true
+		}
+	}
+	werr := cmd.Wait()
+	if !done {
+		first := stderr.String()
+		if i := strings.Index(first, "\n\n"); i > 0 {
+			first = first[:i]
+		}
+		if len(first) > 600 {
+			first = first[:600]
+		}
+		if last == nil {
+			return fmt.Errorf("harness: the c16x child died before its first request: %v\n%s", werr, first)
+		}
+		sum.violate(700000+sum.Evaluations, "a request terminated the serving process", last, fmt.Sprintf("%v: %s", werr, first))
+	}
+	return nil
 }
 
 func validName(name string) bool { return name != "" && !bytes.ContainsRune([]byte(name), '/') }
